@@ -1393,6 +1393,8 @@ class SVG:
         # https://github.com/googlefonts/picosvg/issues/269 remove empty subpaths *after* rounding
         self.remove_empty_subpaths(inplace=True)
         self.remove_unpainted_shapes(inplace=True)
+        # a gradient may have lost its last user just now
+        self._remove_orphaned_gradients()
 
         violations = self.checkpicosvg(
             allow_text=allow_text, drop_unsupported=drop_unsupported
